@@ -214,7 +214,7 @@ func genDM(r *rng, p Profile) Call {
 func genAztec(r *rng, p Profile) Call {
 	n := r.length(p.MaxLen)
 	c := Call{Fn: "aztec", I1: 33}
-	switch r.intn(5) {
+	switch r.intn(7) {
 	case 0:
 		c.B = r.str(digits+" ,.", n)
 	case 1:
@@ -223,6 +223,23 @@ func genAztec(r *rng, p Profile) Call {
 		c.B = r.bytes(n)
 	case 3:
 		c.B = r.ctl(n)
+	case 4, 5:
+		// mode-switch heavy text: words separated by the pairs and control characters the
+		// high-level encoder treats specially
+		seps := []string{"\r", "\n", "\r\n", ". ", ", ", ": ", " ", "\t", "@", "\\", "^", "_", "`", "|", "~", "\x7f", "\x1b", "!", "#", "12", "3.5", "-"}
+		var b []byte
+		for len(b) < n {
+			switch r.intn(3) {
+			case 0:
+				b = append(b, r.str("ABCDEFGHIJKLMNOPQRSTUVWXYZ", r.rangeIn(1, 6))...)
+			case 1:
+				b = append(b, r.str("abcdefghijklmnopqrstuvwxyz", r.rangeIn(1, 6))...)
+			default:
+				b = append(b, r.str(digits, r.rangeIn(1, 4))...)
+			}
+			b = append(b, seps[r.intn(len(seps))]...)
+		}
+		c.B = b[:n]
 	default:
 		c.B = r.str("ABCDEFGHIJKLMNOPQRSTUVWXYZ abcdefghijklmnopqrstuvwxyz", n)
 	}
@@ -255,8 +272,68 @@ func genPDF(r *rng, p Profile) Call {
 	return c
 }
 
-func gen1D(r *rng, p Profile) Call {
-	switch r.intn(8) {
+func gen1D(r *rng, p Profile) Call { return gen1DKind(r, p, r.intn(8)) }
+
+var families = []string{"qr", "dm", "aztec", "pdf417", "code128", "code39", "code93", "codabar", "ean", "2of5", "addcs"}
+
+// genFamily draws a call of one encoder family.
+func genFamily(r *rng, p Profile, fam string) Call {
+	var c Call
+	switch fam {
+	case "qr":
+		c = genQR(r, p)
+	case "dm":
+		c = genDM(r, p)
+	case "aztec":
+		c = genAztec(r, p)
+	case "pdf417":
+		c = genPDF(r, p)
+	case "code128":
+		c = gen1DKind(r, p, []int{0, 7}[r.intn(2)])
+	case "code39":
+		c = gen1DKind(r, p, 1)
+	case "code93":
+		c = gen1DKind(r, p, 2)
+	case "codabar":
+		c = gen1DKind(r, p, 3)
+	case "ean":
+		c = gen1DKind(r, p, 4)
+	case "2of5":
+		c = gen1DKind(r, p, 5)
+	default:
+		c = gen1DKind(r, p, 6)
+	}
+	if c.Fn != "addcs" && r.chance(0.3) {
+		c.Color = r.rangeIn(1, 5)
+	}
+	return spice(r, c)
+}
+
+// corrupt returns a sibling of c whose content has a stray byte, is cut short or doubled.
+func corrupt(r *rng, c Call) Call {
+	v := c
+	v.B = append([]byte(nil), c.B...)
+	if len(v.B) == 0 {
+		v.B = []byte{'x'}
+		return v
+	}
+	switch r.intn(6) {
+	case 0, 1, 2, 3:
+		pos := r.intn(len(v.B))
+		if r.chance(0.3) {
+			pos = len(v.B) - 1
+		}
+		v.B[pos] = []byte{'x', 0xff, 0x00, '~', 'q', '-', ' '}[r.intn(7)]
+	case 4:
+		v.B = v.B[:len(v.B)/2]
+	default:
+		v.B = append(v.B, v.B...)
+	}
+	return v
+}
+
+func gen1DKind(r *rng, p Profile, kind int) Call {
+	switch kind {
 	case 0:
 		c := Call{Fn: "code128"}
 		if r.chance(0.3) {
@@ -437,6 +514,41 @@ func genCall(r *rng, p Profile, rsShared int) Call {
 	if c.Fn != "rs" && c.Fn != "addcs" && c.Fn != "scale" && r.chance(0.35) {
 		c.Color = r.rangeIn(1, 5)
 	}
+	// error paths at every stage: a stray byte somewhere in otherwise valid content,
+	// or far more data than any symbol holds
+	return spice(r, c)
+}
+
+// spice adds the unusual: an interesting first/last byte, a stray byte, or far too much data.
+func spice(r *rng, c Call) Call {
+	if c.Fn != "rs" && c.Fn != "scale" && r.chance(0.12) {
+		// an "interesting" byte at the very end or the very start: shift/latch decisions,
+		// terminators and padding all depend on what comes last
+		ch := []byte{'\r', '\n', '\t', 0, 0x1b, 0x7f, ' ', '.', ',', ':', '@', '0', 'a', 'A', 0x80, 0xff, '\r', '9'}[r.intn(18)]
+		if r.chance(0.75) {
+			c.B = append(append([]byte(nil), c.B...), ch)
+		} else {
+			c.B = append([]byte{ch}, c.B...)
+		}
+	}
+	if c.Fn != "rs" && c.Fn != "scale" && len(c.B) > 0 {
+		switch x := r.intn(100); {
+		case x < 10:
+			pos := r.intn(len(c.B))
+			if r.chance(0.4) {
+				pos = len(c.B) - 1 - r.intn(min(3, len(c.B)))
+			}
+			c.B = append([]byte(nil), c.B...)
+			c.B[pos] = []byte{'x', 'X', '-', ' ', 0, 0xff, 0x80, '*', '\r', 'a', '~'}[r.intn(11)]
+		case x < 12 && (c.Fn == "qr" || c.Fn == "dm" || c.Fn == "aztec" || c.Fn == "pdf417" || c.Fn == "code128"):
+			big := r.rangeIn(3000, 9000)
+			unit := c.B
+			c.B = make([]byte, 0, big)
+			for len(c.B) < big {
+				c.B = append(c.B, unit...)
+			}
+		}
+	}
 	return c
 }
 
@@ -469,7 +581,24 @@ func genBitHistory(r *rng, maxOps, maxBits int, id int) Call {
 	c := Call{Fn: "bitlist", I1: id}
 	n := r.rangeIn(1, maxOps)
 	length := 0
+	// streaming costs scheduler steps per byte: bound the bytes streamed per history
+	// (most histories small, one in ten may stream a long list)
+	iterBudget := 1200
+	if r.chance(0.1) {
+		iterBudget = 16000
+	}
 	add := func(op BitOp, grow int) {
+		if op.Op == "iter" || op.Op == "itern" {
+			cost := length/8 + 1
+			if op.Op == "itern" {
+				cost *= op.A
+			}
+			if cost > iterBudget {
+				op = BitOp{Op: "bytes"}
+			} else {
+				iterBudget -= cost
+			}
+		}
 		c.Ops = append(c.Ops, op)
 		length += grow
 	}
@@ -562,14 +691,18 @@ func genBitHistory(r *rng, maxOps, maxBits int, id int) Call {
 			add(BitOp{Op: "len"}, 0)
 		case x < 94:
 			add(BitOp{Op: "bytes"}, 0)
-		default:
+		case x < 97:
 			add(BitOp{Op: "iter", Reads: r.intn(3)}, 0)
+		default:
+			add(BitOp{Op: "itern", A: r.rangeIn(2, 3), N: r.intn(1 << 20)}, 0)
 		}
 	}
 	// always end with both byte views
 	add(BitOp{Op: "bytes"}, 0)
 	if r.chance(0.7) {
 		add(BitOp{Op: "iter", Reads: r.intn(2)}, 0)
+	} else if r.chance(0.5) {
+		add(BitOp{Op: "itern", A: r.rangeIn(2, 3), N: r.intn(1 << 20)}, 0)
 	}
 	return c
 }
